@@ -254,6 +254,10 @@ fn truth_ann(fc: &FileCase, clean: bool) -> String {
 }
 
 /// structured corruption of one or two header/table fields
+pub fn corrupt_pub(rng: &mut Rng, fc: &FileCase) -> (Vec<u8>, String) {
+    corrupt(rng, fc)
+}
+
 fn corrupt(rng: &mut Rng, fc: &FileCase) -> (Vec<u8>, String) {
     let mut bytes = fc.built.bytes.clone();
     let le = fc.obj.le;
